@@ -1196,8 +1196,8 @@ func (e *Exec) randIntn(n value, w int) value {
 	}
 	e.randDraws++
 	if e.randDraws > e.maxRand {
-		e.Stats.Assumptions[fmt.Sprintf("at most %d random draws per execution (retry loops that draw more are cut)", e.maxRand)] = true
-		panic(abortPath{why: "random draw budget", kind: "assume"})
+		// never silent: a loop that keeps drawing may be a non-terminating retry loop
+		panic(abortPath{why: fmt.Sprintf("more than %d random draws on one path (possible non-terminating retry loop)", e.maxRand), kind: "budget"})
 	}
 	name := e.freshName("r_rand")
 	e.declare(name, fmt.Sprintf("(_ BitVec %d)", w))
